@@ -324,6 +324,9 @@ class IntervalFn:
         for p, d in zip(ps[len(ps) - len(a.defaults):], a.defaults):
             if p not in env:
                 env[p] = self.ev(d, env)
+        for x, d in zip(a.kwonlyargs, a.kw_defaults):
+            if x.arg not in env and d is not None:
+                env[x.arg] = self.ev(d, env)
         self.block(self.fn.body, env)
         return self
 
@@ -400,7 +403,10 @@ class IntervalFn:
         if isinstance(test, ast.Call):
             fsrc = ast.unparse(test.func)
             if fsrc == "isinstance":
-                return dict(env), None  # callers pass the documented types: isinstance holds
+                # callers pass the documented types: isinstance(x, int / float / str ...) holds; a numeric argument is not a bool
+                if len(test.args) == 2 and ast.unparse(test.args[1]) == "bool":
+                    return None, dict(env)
+                return dict(env), None
             if fsrc in self.FINITE_TESTS | self.INF_TESTS and len(test.args) == 1 and isinstance(test.args[0], ast.Name):
                 n = test.args[0].id
                 iv = env.get(n)
@@ -411,6 +417,26 @@ class IntervalFn:
                     e_inf = dict(env, **{n: Iv(INF, INF) if iv.hi == INF else Iv(-INF, -INF)}) if inf_possible else None
                     return (e_fin, e_inf) if fsrc in self.FINITE_TESTS else (e_inf, e_fin)
             return dict(env), dict(env)
+        if isinstance(test, ast.BoolOp) and isinstance(test.op, ast.And):
+            # true if all conjuncts true (refine in sequence); false if some conjunct false: no refinement
+            et = dict(env)
+            may_be_false = False
+            for v in test.values:
+                t, f = self.split(v, et)
+                if f is not None:
+                    may_be_false = True
+                if t is None:
+                    return None, dict(env)
+                et = t
+            return et, (dict(env) if may_be_false else None)
+        if isinstance(test, ast.Compare) and len(test.ops) > 1:
+            # a <= b <= c  is  (a <= b) and (b <= c)
+            parts = []
+            left = test.left
+            for op, right in zip(test.ops, test.comparators):
+                parts.append(ast.copy_location(ast.Compare(left=left, ops=[op], comparators=[right]), test))
+                left = right
+            return self.split(ast.copy_location(ast.BoolOp(op=ast.And(), values=parts), test), env)
         if isinstance(test, ast.Compare) and len(test.ops) == 1:
             l, r, op = test.left, test.comparators[0], test.ops[0]
             if isinstance(r, ast.Name) and isinstance(env.get(r.id), Iv) and not isinstance(l, ast.Name):
